@@ -80,6 +80,16 @@ def make_net_transport():
     return NetTransport
 
 
+class LogList(list):
+    """a list whose appends can be observed at the moment they happen"""
+    on_append = None
+
+    def append(self, x):
+        super().append(x)
+        if self.on_append is not None:
+            self.on_append(x)
+
+
 class RecPub:
     """application publisher double: the script decides when it emits"""
 
@@ -212,7 +222,7 @@ class Net:
         self.loop.settle()
         self.ep = {'client': box['c'], 'server': box['s']}
         self.t = {'client': self.tc, 'server': self.ts}
-        self.dispatched = {'client': [], 'server': []}    # complete frames reaching dispatch on that side
+        self.dispatched = {'client': LogList(), 'server': LogList()}    # complete frames reaching dispatch on that side
         for side in ('client', 'server'):
             self._wrap(side)
 
